@@ -320,7 +320,7 @@ func tryGetRedumpKey(fsys afero.Fs, requestedPath string) ([]byte, error) {
 	case err == nil:
 		defer keyFile.Close()
 		return ReadKeyFile(keyFile)
-	case !errors.Is(err, afero.ErrFileNotFound):
+	case !isKeyFileAbsent(err):
 		// key probably exists but can't be read: serving encrypted data as is would be wrong
 		return nil, fmt.Errorf("open key file failed: %w", err)
 	}
@@ -334,7 +334,17 @@ func tryGetRedumpKey(fsys afero.Fs, requestedPath string) ([]byte, error) {
 		return ReadKeyFile(keyFile)
 	}
 
+	if isKeyFileAbsent(err) {
+		err = afero.ErrFileNotFound
+	}
+
 	return nil, err
+}
+
+// isKeyFileAbsent tells that key file surely does not exist: there is no such file, something on the way to it
+// is not a directory (e.g. a file called REDKEY) or its name would be longer than a name can be.
+func isKeyFileAbsent(err error) bool {
+	return errors.Is(err, afero.ErrFileNotFound) || errors.Is(err, syscall.ENOTDIR) || errors.Is(err, syscall.ENAMETOOLONG)
 }
 
 func deriveISOKey(targetKey, data1Key []byte) error {
